@@ -11,7 +11,10 @@
   * models/vasicek_mc.py            : rate_path_mc, zero_price_mc
   * models/cir_montecarlo.py        : rate_path_mc, zero_price_mc (EULER, LOGNORMAL, MILSTEIN, KAHLJACKEL)
   * models/heston.py                : get_paths (EULER, EULERLOG) and the value_mc aggregation
-  * models/lmm_mc.py                : lmm_simulate_fwds_1f (predictor-corrector step, as coded)
+  * models/lmm_mc.py                : lmm_simulate_fwds_1f (predictor-corrector step, as coded); lmm_cap_flr_pricer
+        (after commit cf96daa: df initialised, arrays of size num_fwds)
+  * products/equity/equity_asian_option.py : _value_mc_fast_numba (after commit 760047e: dt computed AFTER the
+        averaging-period adjustment of t0 and n)
   * utils/helpers.py                : uniform_to_default_time (with Python's negative-index wrap)
 
   Written once over a number type `α`; the transcendental functions and the decimal constants come in
@@ -33,6 +36,8 @@ structure Ops (α : Type) where
   quarter : α    -- 0.25
   tiny8 : α      -- 1e-8
   far : α        -- 99999.0
+  abs : α → α
+  tiny12 : α     -- 1e-12
 
 section
 variable {α : Type} [Zero α] [One α] [Add α] [Sub α] [Mul α] [Div α] [Neg α] [NatCast α]
@@ -288,6 +293,55 @@ def lmmPath1F (o : Ops α) (gammas : List α) : List α → List α → List α 
   | cur, taus, w :: ws =>
     let nxt := lmmStepAll o (taus.getD 0 0) w cur taus gammas
     cur :: lmmPath1F o gammas (nxt.drop 1) (taus.drop 1) ws
+
+/-! ## LMM cap/floor pricer — `lmm_cap_flr_pricer` (as repaired: `numeraire[0] = 1/df[0]`, `df[0] = 1/(1+fwd0[0]·taus[0])`) -/
+
+/-- cap/floorlet cash flows of one path: `max(libor - K, 0)*tau` / `max(K - libor, 0)*tau` on the diagonal
+`libor_j = fwds[path, j, j]`. -/
+def capFlrLets (o : Ops α) (isCap : Bool) (k : α) (libors taus : List α) : List α :=
+  List.zipWith (fun l tau => (if isCap then o.max (l - k) 0 else o.max (k - l) 0) * tau) libors taus
+
+/-- the numeraire along one path: `numeraire[0] = 1/df[0]`, `numeraire[j] = numeraire[j-1]*(1 + libor_j*taus[j])`
+(`rest` = the `(libor_j, taus[j])` for `j ≥ 1`). -/
+def capFlrNumeraire (n0 : α) : List (α × α) → List α
+  | [] => [n0]
+  | (l, tau) :: rest => n0 :: capFlrNumeraire (n0 * (1 + l * tau)) rest
+
+/-- discounted cap/floorlets of one path: `capFlrLets[i] / (abs(numeraire[i]) + 1e-12)` -/
+def capFlrPath (o : Ops α) (isCap : Bool) (k fwd00 : α) (libors taus : List α) : List α :=
+  let df0 := 1 / (1 + fwd00 * taus.headD 0)
+  let nums := capFlrNumeraire (1 / df0) ((libors.zip taus).drop 1)
+  List.zipWith (fun c n => c / (o.abs n + o.tiny12)) (capFlrLets o isCap k libors taus) nums
+
+/-! ## Asian option — `_value_mc_fast_numba` (as repaired) -/
+
+/-- the averaging-period adjustment and THEN the observation spacing: returns `(k, multiplier, t0, dt)` for the
+number of observations `nAdj` actually simulated (`n` outside the period, `int(n*t/tau+0.5)+1` inside — the
+truncation is taken by the caller).  `accrued` is only read inside the period. -/
+def asianSchedule [LT α] [DecidableRel (α := α) (· < ·)] (t0 t tau k accrued : α) (nAdj : Nat) : α × α × α × α :=
+  if t0 < 0 then ((k * tau + accrued * t0) / t, t / tau, 0, (t - 0) / (nAdj : α))
+  else (k, 1, t0, (t - t0) / (nAdj : α))
+
+/-- the pair of arithmetic averages of one antithetic path pair: `g0` moves the price to the start of averaging,
+`gs` are the draws of the `n` observations; `s_arithmetic += s/n`. -/
+def asianFastPair (o : Ops α) (mu v t0 dt s : α) (g0 : α) (gs : List α) : α × α :=
+  let v2 := v * v
+  let n : α := (gs.length : α)
+  let s1 := s * o.exp ((mu - v2 / o.two) * t0 + g0 * o.sqrt t0 * v)
+  let s2 := s * o.exp ((mu - v2 / o.two) * t0 - g0 * o.sqrt t0 * v)
+  let st := gs.foldl (fun (st : (α × α) × (α × α)) g =>
+    let a := st.1.1 * o.exp ((mu - v2 / o.two) * dt + g * o.sqrt dt * v)
+    let b := st.1.2 * o.exp ((mu - v2 / o.two) * dt - g * o.sqrt dt * v)
+    ((a, b), (st.2.1 + a / n, st.2.2 + b / n))) ((s1, s2), (0, 0))
+  st.2
+
+/-- `_value_mc_fast_numba`: `multiplier * (mean(payoff_1) + mean(payoff_2)) * exp(-r*t) / 2.0`; `paths` = per path
+`(g0, observation draws)`. -/
+def asianFastMC (o : Ops α) (isCall : Bool) (mu v r t t0 dt k mult s : α) (paths : List (α × List α)) : α :=
+  let avgs := paths.map fun p => asianFastPair o mu v t0 dt s p.1 p.2
+  let p1 := meanL (avgs.map fun a => payoff o isCall k a.1)
+  let p2 := meanL (avgs.map fun a => payoff o isCall k a.2)
+  mult * (p1 + p2) * o.exp (-r * t) / o.two
 
 end
 
